@@ -78,86 +78,91 @@ func init() {
 			del := r.P.FuncObj("workers/operator", "(*TimerStore).Delete")
 			tsF := r.P.Field("workers/operator", "Timer", "Timestamp")
 			keyF := r.P.Field("workers/operator", "Timer", "Key")
-			var timerVar types.Object
-			hasName := ""
+			// the variable(s) GetEarliest's results are first stored in (in the loop or in an extracted helper)
+			var timerName, hasName string
+			var loop ast.Stmt
 			inspect(lit.Body, func(nd ast.Node) bool {
-				if as, ok := nd.(*ast.AssignStmt); ok && len(as.Rhs) == 1 {
-					if call, ok := ast.Unparen(as.Rhs[0]).(*ast.CallExpr); ok && r.P.CalleeFunc(info, call) == getE {
-						timerVar = prog.IdentObj(info, as.Lhs[0])
-						if len(as.Lhs) == 2 {
-							if id, ok := as.Lhs[1].(*ast.Ident); ok {
-								hasName = id.Name
+				switch x := nd.(type) {
+				case *ast.ForStmt:
+					if loop == nil && r.exprCalls(info, x.Body, getE) {
+						loop = x
+					}
+				case *ast.RangeStmt:
+					if loop == nil && r.exprCalls(info, x.Body, getE) {
+						loop = x
+					}
+				case *ast.AssignStmt:
+					if len(x.Rhs) == 1 {
+						if call, ok := ast.Unparen(x.Rhs[0]).(*ast.CallExpr); ok && r.P.CalleeFunc(info, call) == getE {
+							if id, ok := x.Lhs[0].(*ast.Ident); ok {
+								timerName = id.Name
+							}
+							if len(x.Lhs) == 2 {
+								if id, ok := x.Lhs[1].(*ast.Ident); ok {
+									hasName = id.Name
+								}
 							}
 						}
 					}
 				}
 				return true
 			})
-			if timerVar == nil {
+			if timerName == "" || loop == nil {
 				r.Fail(f.Name()+":no-earliest", lit.Pos(), nil, "the firing loop no longer asks the store for the earliest timer")
 				return
 			}
-			// stop condition
-			var stop *ast.IfStmt
-			inspect(lit.Body, func(nd ast.Node) bool {
-				if is, ok := nd.(*ast.IfStmt); ok && stop == nil && exprUsesField(info, is.Cond, tsF) && usesTimeCompare(info, is.Cond) {
-					stop = is
-				}
-				return true
-			})
-			if stop == nil {
-				r.Fail(f.Name()+":no-stop", lit.Pos(), nil, "the firing loop has no stop condition on the timer's timestamp: every stored timer fires at the first watermark")
-				return
+			isEarliest := func(in *types.Info, e ast.Expr) bool {
+				call, idx := valueOrigin(in, e, 0)
+				return call != nil && idx == 0 && r.P.CalleeFunc(in, call) == getE
 			}
-			tn := timerVar.Name()
-			// what is the watermark operand? any other symbol; we name it by discovery
-			var wmName string
-			inspect(stop.Cond, func(nd ast.Node) bool {
-				if id, ok := nd.(*ast.Ident); ok {
-					if o := info.Uses[id]; o != nil && o != timerVar {
-						if v, isVar := o.(*types.Var); isVar && !v.IsField() && wmName == "" && o.Type().String() == "time.Time" {
-							wmName = id.Name
-						}
-					}
-				}
-				return true
-			})
-			// the "no timer left" test may be folded into the same condition (`!ok || timer after watermark`)
-			odNames := map[string]string{tn + ".Timestamp": "timer", wmName: "watermark"}
-			if hasName != "" {
-				odNames[hasName] = "has"
+			var loopBody *ast.BlockStmt
+			switch x := loop.(type) {
+			case *ast.ForStmt:
+				loopBody = x.Body
+			case *ast.RangeStmt:
+				loopBody = x.Body
 			}
-			r.orderDomExpr(info, stop.Cond, f.Name()+":stop-condition", odNames, nil,
-				func(e odEnv) orderdom.Value {
-					has, mentioned := e.Bool["has"]
-					if !mentioned {
-						has = true
-					}
-					return orderdom.Bool(!has || e.Rank["timer"] > e.Rank["watermark"])
-				}, "no timer left, or timer.Timestamp > composite watermark (stop)")
-			stops := false
-			for _, st := range stop.Body.List {
-				if b, ok := st.(*ast.BranchStmt); ok && b.Tok == token.BREAK {
-					stops = true
-				}
-				if _, ok := st.(*ast.ReturnStmt); ok {
-					stops = true
-				}
-			}
-			if !stops {
-				r.Fail(f.Name()+":stop-effect", stop.Pos(), nil, "the stop condition does not leave the firing loop")
-			}
-			// the watermark operand is the composite computed by this call
+			// one iteration decided over all orderings of (timer timestamp, watermark) and "a timer is
+			// left": the iteration goes on to delete (and fire) the timer iff there is one and its
+			// timestamp is not after the composite watermark; otherwise it leaves the loop. The
+			// composite watermark is the local computed with iteru.MinFunc over the upstreams, or the
+			// registry field it was stored in.
 			minFunc := r.P.FuncObj("util/iteru", "MinFunc")
-			if wmObj := lookupIdentObj(info, stop.Cond, wmName); wmObj != nil {
-				def := localDef(info, f.Decl.Body, wmObj)
-				if def == nil || !r.exprCalls(info, def, minFunc) {
-					wmField := r.P.Field("workers/operator", "TimerRegistry", "watermark")
-					if def == nil || prog.SelField(info, def) != wmField {
-						r.Fail(f.Name()+":stop-operand", stop.Pos(), nil, "the firing loop compares timers with something other than the composite (minimum) watermark")
+			odNames := map[string]string{timerName + ".Timestamp": "timer"}
+			if hasName != "" {
+				odNames[hasName] = "?has"
+			}
+			ast.Inspect(f.Decl.Body, func(nd ast.Node) bool {
+				if as, ok := nd.(*ast.AssignStmt); ok && len(as.Lhs) == 1 && len(as.Rhs) == 1 && r.exprCalls(info, as.Rhs[0], minFunc) {
+					if id, ok := as.Lhs[0].(*ast.Ident); ok {
+						odNames[id.Name] = "watermark"
 					}
 				}
+				return true
+			})
+			if f.Decl.Recv != nil && len(f.Decl.Recv.List) == 1 && len(f.Decl.Recv.List[0].Names) == 1 {
+				odNames[f.Decl.Recv.List[0].Names[0].Name+".watermark"] = "watermark"
 			}
+			m := orderdom.New(info, odNames)
+			m.ReturnIsEnd = true
+			m.Effect = func(call *ast.CallExpr) bool { return r.P.CalleeFunc(info, call) == del }
+			m.Inline = func(call *ast.CallExpr) (*ast.FuncType, *ast.BlockStmt) {
+				if hf := r.P.FuncInfoOf(r.P.CalleeFunc(info, call)); isNewHelper(r.P, hf) {
+					return hf.Decl.Type, hf.Decl.Body
+				}
+				return nil, nil
+			}
+			res := m.CheckBody(loopBody.List, nil, func(e odEnv) orderdom.Value {
+				has, mentioned := e.Bool["?has"]
+				if !mentioned {
+					has = true
+				}
+				if has && e.Rank["timer"] <= e.Rank["watermark"] {
+					return orderdom.Sym("effect")
+				}
+				return orderdom.Sym("end")
+			})
+			r.finishOD(f.Name()+":stop-condition", loop.Pos(), res, "a timer is left and timer.Timestamp <= composite watermark: delete and fire it; otherwise stop")
 			yieldObj := types.Object(nil)
 			if len(lit.Type.Params.List) == 1 && len(lit.Type.Params.List[0].Names) == 1 {
 				yieldObj = info.Defs[lit.Type.Params.List[0].Names[0]]
@@ -166,7 +171,7 @@ func init() {
 				return ev.Kind == pathsim.EvCall && yieldObj != nil && prog.IdentObj(c.Info, ev.Call.Fun) == yieldObj
 			}
 			isDel := func(c *pathsim.Ctx, ev *pathsim.Event) bool {
-				return callTo(del)(c, ev) && len(ev.Call.Args) == 1 && prog.IdentObj(c.Info, ev.Call.Args[0]) == timerVar
+				return callTo(del)(c, ev) && len(ev.Call.Args) == 1 && isEarliest(c.Info, ev.Call.Args[0])
 			}
 			// per iteration: delete precedes yield
 			spec := &pathsim.Spec{Step: func(c *pathsim.Ctx, s pathsim.State, ev *pathsim.Event) []pathsim.State {
@@ -187,7 +192,7 @@ func init() {
 					}
 					k, okk := ast.Unparen(ev.Call.Args[0]).(*ast.SelectorExpr)
 					t, okt := ast.Unparen(ev.Call.Args[1]).(*ast.SelectorExpr)
-					if !okk || !okt || prog.SelField(c.Info, k) != keyF || prog.SelField(c.Info, t) != tsF || prog.IdentObj(c.Info, k.X) != timerVar || prog.IdentObj(c.Info, t.X) != timerVar {
+					if !okk || !okt || prog.SelField(c.Info, k) != keyF || prog.SelField(c.Info, t) != tsF || !isEarliest(c.Info, k.X) || !isEarliest(c.Info, t.X) {
 						c.Violate(ev.Pos, "[yield-value] the yielded (key, timestamp) are not those of the earliest timer")
 					}
 				}
@@ -330,18 +335,22 @@ func init() {
 			// Push: eviction marks the cache as partial
 			push := r.P.Func("workers/operator", "(*KeyGroupPriorityQueue).Push")
 			all := r.P.Field("workers/operator", "KeyGroupPriorityQueue", "allDataInCache")
+			// A: an element was evicted on this path; B: the flag's last value on this path is false.
+			// The two updates may come in either order (both happen under the queue's single-threaded
+			// use); what matters is the state Push leaves behind.
 			spec := &pathsim.Spec{Step: func(c *pathsim.Ctx, s pathsim.State, ev *pathsim.Event) []pathsim.State {
 				if methodCallOn(cache, "PopLast")(c, ev) {
 					s.A = 1
 					return []pathsim.State{s}
 				}
-				if ev.Kind == pathsim.EvAssign && len(ev.Lhs) == 1 && prog.SelField(c.Info, ev.Lhs[0]) == all {
+				if ev.Kind == pathsim.EvAssign && len(ev.Lhs) == 1 && len(ev.Rhs) == 1 && prog.SelField(c.Info, ev.Lhs[0]) == all {
+					s.B = 0
 					if tv, ok := c.Info.Types[ev.Rhs[0]]; ok && tv.Value != nil && tv.Value.String() == "false" {
-						s.A = 0
-						return []pathsim.State{s}
+						s.B = 1
 					}
+					return []pathsim.State{s}
 				}
-				if (ev.Kind == pathsim.EvReturn || ev.Kind == pathsim.EvExit || ev.Kind == pathsim.EvLoopIter) && s.A == 1 {
+				if (ev.Kind == pathsim.EvReturn || ev.Kind == pathsim.EvExit) && s.A == 1 && s.B == 0 {
 					c.Violate(ev.Pos, "[evict-without-flag] an element is evicted from the cache without clearing allDataInCache: the evicted timer exists only in the DKV and is never reloaded")
 				}
 				return nil
@@ -637,7 +646,7 @@ func init() {
 					ok := false
 					inspect(f.Decl.Body, func(nd ast.Node) bool {
 						if ix, isIx := nd.(*ast.IndexExpr); isIx && prog.SelField(info, ix.X) == parts {
-							if call, isCall := deref(info, ix.Index).(*ast.CallExpr); isCall && prog.SelField(info, call.Fun) == gpi && len(call.Args) == 1 && r.isParam(f, call.Args[0], 0) {
+							if call, isCall := deref(info, ix.Index).(*ast.CallExpr); isCall && prog.SelField(info, call.Fun) == gpi && len(call.Args) == 1 && r.isParam(f, deref(info, call.Args[0]), 0) {
 								ok = true
 							}
 						}
